@@ -111,6 +111,9 @@ pub fn fragments() -> Vec<Vec<u8>> {
               "\x1b[?2026;2$y", "\x1b[?62;4c", "\x1b[97u", "\x1b[97;5u", "\x1b[97:65;5:2u", "\x1b[?1u", "\x1b[4;10;20t", "\x1b[8;24;80t",
               "\x1b]11;rgb:ff/00/7f\x1b\\", "\x1b]4;1;#aabbcc\x07", "\x1bP1+r544e=787465726d\x1b\\", "\x1bP0+r\x1b\\", "\x1bP1$r0;1m\x1b\\",
               "\x1b_Gi=31;OK\x1b\\", "\x1b_Gi=1,p=2;ENOENT:x\x1b\\", "\x1b[0m", "\x1b[1;3;4m", "\x1b[38;5;196m", "\x1b[38;2;1;2;3m", "\x1b[38:2:1:2:3m", "\x1b[4:3m", "\x1b[58:2::1:2:3m", "\x1b[m",
+              // complete for the automaton but refused by the payload decoder: one Raw token each
+              "\x1b[0;0R", "\x1b[0;7R", "\x1b[<0;0;0M", "\x1b[<0;3;0m", "\x1b[97;1:3u", "\x1b]52;c;aGk=\x1b\\", "\x1bP0$r\x1b\\", "\x1b_Gi=abc;OK\x1b\\", "\x1b[?25;9$y",
+              "\x1b[99999999999999999999;1R", "\x1b[38;5;300m",
               "\x1ba", "\x1b\x1b", "\x7f", "\r", "\t", "\x00", "\x01", "\x1a", " ", "a", "Z", "~"] {
         f.push(s(x));
     }
